@@ -28,6 +28,11 @@ func fnKey(fn *ssa.Function) string {
 
 // instrs iterates over all instructions of fn.
 func instrs(fn *ssa.Function, f func(ssa.Instruction)) {
+	visitDeep(fn, f, map[*ssa.Function]bool{})
+}
+
+// instrsFlat iterates over the instructions of fn itself only.
+func instrsFlat(fn *ssa.Function, f func(ssa.Instruction)) {
 	for _, b := range fn.Blocks {
 		for _, ins := range b.Instrs {
 			f(ins)
@@ -72,8 +77,46 @@ func callsTo(fn *ssa.Function, name string) []ssa.CallInstruction {
 // locals (`*t0 = v; rundefers; t = *t0; return t`); the spilled loads are replaced in place by the
 // value stored in the same block, so rules see the value the source returns.
 func returns(fn *ssa.Function) []*ssa.Return {
+	return returnsD(fn, 0)
+}
+
+// tailHelper: the new helper whose results this return hands on unchanged (`return helper(args)`).
+func tailHelper(r *ssa.Return) *ssa.Function {
+	if len(r.Results) == 0 {
+		return nil
+	}
+	var call *ssa.Call
+	for i, v := range r.Results {
+		var c *ssa.Call
+		switch x := v.(type) {
+		case *ssa.Call:
+			if len(r.Results) != 1 {
+				return nil
+			}
+			c = x
+		case *ssa.Extract:
+			cc, ok := x.Tuple.(*ssa.Call)
+			if !ok || x.Index != i {
+				return nil
+			}
+			c = cc
+		default:
+			return nil
+		}
+		if call != nil && c != call {
+			return nil
+		}
+		call = c
+	}
+	if call == nil {
+		return nil
+	}
+	return helperCallee(call)
+}
+
+func returnsD(fn *ssa.Function, depth int) []*ssa.Return {
 	var out []*ssa.Return
-	instrs(fn, func(ins ssa.Instruction) {
+	instrsFlat(fn, func(ins ssa.Instruction) {
 		if r, ok := ins.(*ssa.Return); ok {
 			if fn.Recover != nil && r.Block() == fn.Recover {
 				return // synthetic return of the recover block (runs only after a recovered panic)
@@ -95,6 +138,10 @@ func returns(fn *ssa.Function) []*ssa.Return {
 						}
 					}
 				}
+			}
+			if h := tailHelper(r); h != nil && depth < 3 {
+				out = append(out, returnsD(h, depth+1)...)
+				return
 			}
 			out = append(out, r)
 		}
@@ -283,7 +330,7 @@ func (w *World) callersOf(fn *ssa.Function) []ssa.CallInstruction {
 		if isTestFile(w, f.Pos()) {
 			continue
 		}
-		instrs(f, func(ins ssa.Instruction) {
+		instrsFlat(f, func(ins ssa.Instruction) {
 			if c, ok := ins.(ssa.CallInstruction); ok {
 				if c.Common().StaticCallee() == fn {
 					out = append(out, c)
@@ -297,7 +344,7 @@ func (w *World) callersOf(fn *ssa.Function) []ssa.CallInstruction {
 // storesTo returns the stores in fn whose address renders to path.
 func storesToPath(fn *ssa.Function, path string) []*ssa.Store {
 	var out []*ssa.Store
-	instrs(fn, func(ins ssa.Instruction) {
+	instrsFlat(fn, func(ins ssa.Instruction) {
 		if s, ok := ins.(*ssa.Store); ok && render(s.Addr) == path {
 			out = append(out, s)
 		}
